@@ -75,15 +75,31 @@ def build(verbose=False):
         rc, mk = sh("timeout 3000 make -k -j%d 2>&1" % common.NPROC, cwd=COQDIR, timeout=3100)
         drv_ok = True
         oc = os.path.join(COQDIR, "ocaml")
-        srcs = [os.path.join(oc, f) for f in ("model.ml", "model.mli", "drvlib.ml", "driver.ml")]
-        drv = os.path.join(oc, "driver")
-        if all(os.path.exists(s) for s in srcs):
-            if not os.path.exists(drv) or any(os.path.getmtime(s) > os.path.getmtime(drv) for s in srcs):
-                rc2, dout = sh("ocamlfind ocamlopt -w -a model.mli model.ml drvlib.ml driver.ml -o driver 2>&1", cwd=oc, timeout=600)
-                drv_ok = rc2 == 0
-                mk += dout
-        else:
-            drv_ok = False
+        # main driver + one stand-alone driver per unit (drv_<unit>.ml with its own extraction model_<unit>.ml)
+        units = [("", "model", "driver.ml", "driver")]
+        for f in sorted(glob.glob(os.path.join(oc, "drv_*.ml"))):
+            u = os.path.basename(f)[4:-3]
+            units.append((u, "model_" + u, "drv_%s.ml" % u, "driver_" + u))
+        for u, model, drvsrc, exe in units:
+            srcs = [os.path.join(oc, f) for f in (model + ".ml", model + ".mli", "drvlib.ml", drvsrc)]
+            drv = os.path.join(oc, exe)
+            if not all(os.path.exists(s) for s in srcs):
+                drv_ok = False
+                mk += "\nmissing driver sources for unit '%s': %s" % (u, [s for s in srcs if not os.path.exists(s)])
+                continue
+            if os.path.exists(drv) and all(os.path.getmtime(s) <= os.path.getmtime(drv) for s in srcs):
+                continue
+            bd = os.path.join(oc, ".build", u or "main")
+            os.makedirs(bd, exist_ok=True)
+            import shutil
+            shutil.copy(srcs[0], os.path.join(bd, "model.ml")); shutil.copy(srcs[1], os.path.join(bd, "model.mli"))
+            shutil.copy(srcs[2], os.path.join(bd, "drvlib.ml"))
+            txt = open(srcs[3]).read().replace("Model_" + u, "Model") if u else open(srcs[3]).read()
+            open(os.path.join(bd, "driver.ml"), "w").write(txt)
+            rc2, dout = sh("ocamlfind ocamlopt -w -a model.mli model.ml drvlib.ml driver.ml -o ../../%s 2>&1" % exe, cwd=bd, timeout=600)
+            if rc2 != 0:
+                drv_ok = False
+                mk += "\n[driver %s]\n" % exe + dout
         return {"make_rc": rc, "log": mk[-6000:], "gen_ok": gen_ok, "gen_out": gen_out.strip()[-600:], "driver_ok": drv_ok,
                 "build_s": round(time.time() - t0, 1)}
 
